@@ -4,7 +4,9 @@ import gen as G
 
 THEOREMS = ['pad_gives_max_len_target', 'pad_appends_only_none', 'pad_clip_gives_exactly_target',
             'pad_clip_is_prefix_then_none', 'fill_replaces_exactly_none', 'fill_keeps_structure',
-            'negative_index_values_are_interchangeable', 'byte_mask_is_index', 'unmasked_is_index', 'pad_refines_spec', 'pad_clip_refines_spec']
+            'negative_index_values_are_interchangeable', 'byte_mask_is_index', 'unmasked_is_index',
+            'pad_refines_spec', 'pad_clip_refines_spec', 'fillna_refines_spec', 'fillna_refines_spec_wide',
+            'frag_in_fillna_fragment', 'fillna_never_fails']
 RULE = ('value-first random layouts with options at any level (five encodings, both polarities/bit orders, bit masks not a '
         'multiple of 8) x (rpad | rpadclip: target 0..6 x axis) | fillna(value); non-trivial = input has >= 1 None or a '
         'list shorter than the target; distinct by case text')
